@@ -38,6 +38,13 @@ CHECKS += [
      "note": "Keys are integers ordered by < (the only in-repo instantiation is uint32). Go code is modelled, not verified: model = code is established on the enumerated histories. No axioms."},
 ]
 
+CHECKS += [
+    {"id": "C34",
+     "technique": "Coq proof over an executable model (transcription of the JSON primitive writers and their read-back) + T-const (safeSet, hex, base64 markers) + correspondence of the extracted model with pkg/basictl and freshly generated Json2Read* helpers",
+     "text": "For every byte string, JSONWriteString/JSONWriteStringBytes emit a valid RFC 8259 UTF-8 JSON text (recogniser defined in Coq); valid UTF-8 input is one string token that the RFC 8259 unescaper decodes to the same bytes, anything else is {\"base64\":...} whose standard padded base64 decodes to the same bytes. Decimal integer writers are inverted exactly by the readers for uint8/uint32/uint64/int32/int64 and out-of-range text is rejected. NaN/+-Inf are written as the documented strings and read back as canonical NaN/+-Inf. ~158k ops per quick run (all strings of length <= 2 exhaustively).",
+     "note": "Partial for finite floats: bit-exact round trip and JSON validity are proved only under hypotheses about strconv.AppendFloat('f',-1)/ParseFloat (theorems *_partial); these are validated, not proved, on >=54k structured and random bit patterns per run. Go stdlib pieces (utf8, base64, strconv integers) and the easyjson lexer are modelled by semantics and tied by the correspondence run. No axioms."},
+]
+
 _claimed = {c["id"] for c in CHECKS}
 _reasons = {
     "C32": "PHP serializers: no PHP/KPHP interpreter exists in the sandbox and nothing can be installed, so generated PHP cannot be executed; neither a correspondence check nor a failing-input search can exist (DESIGN.md section 8)",
